@@ -37,7 +37,7 @@ INSTANCE_CAP_S = 300
 
 def instances(tier, seed):
     out = []
-    names = ['two_indep', 'nested', 'nested3', 'incompat', 'dv', 'dv_linked', 'sel_linked', 'conn_cond', 'conn_dv', 'conn_opt_src']
+    names = ['two_indep', 'nested', 'nested3', 'incompat', 'dv', 'dv_linked', 'sel_linked', 'sel_forced_linked', 'conn_cond', 'conn_dv', 'conn_opt_src']
     if tier == 'thorough':
         names = list(dsg_pool.TEMPLATES)
     for name in names:
@@ -70,18 +70,44 @@ def _rows(x, act):
     return [tuple(float(v) for v in r) for r in np.array(x).tolist()], [tuple(bool(v) for v in r) for r in np.array(act).tolist()]
 
 
+_ORDER = [0]
+
+
 def observe(gp, decode_rows=None):
     """what a user can see of a processor: variables, enumeration, counts, decodes of the given rows"""
     dvs = [(d.name, d.n_opts if d.is_discrete else tuple(d.bounds)) for d in gp.des_vars]
+    # the enumeration of the unrestricted problem (with_fixed=False) must not depend on what is fixed, nor on whether it
+    # is asked before or after the restricted one (alternating order per call)
+    _ORDER[0] += 1
+    full_first = None
+    if _ORDER[0] % 2 == 0:
+        xf, af = gp.get_all_discrete_x(with_fixed=False)
+        full_first = _rows(xf, af)
     x, act = gp.get_all_discrete_x()
+    xf, af = gp.get_all_discrete_x(with_fixed=False)
+    full = _rows(xf, af)
+    full_cont = [not d.is_discrete for d in gp.all_des_vars]
+    full = (sorted(tuple('cont' if (c_ and a_) else v for v, a_, c_ in zip(r, a, full_cont)) for r, a in zip(*full)), sorted(full[1]))
+    if full_first is not None:
+        ff = (sorted(tuple('cont' if (c_ and a_) else v for v, a_, c_ in zip(r, a, full_cont)) for r, a in zip(*full_first)), sorted(full_first[1]))
+        if ff != full:
+            full = ('with_fixed=False differs when asked before/after the restricted enumeration', ff[0][:3], full[0][:3])
     rows, acts = _rows(x, act)
     n_valid = gp.get_n_valid_designs(with_fixed=True)
     dec = []
+    cont = [not d.is_discrete for d in gp.des_vars]
+
+    def norm(xi, ai):
+        # get_all_discrete_x lists an *active* continuous variable at the placeholder 0 (only discrete vectors are
+        # enumerated); a decode clamps that into the bounds. Active continuous entries are therefore not compared.
+        return tuple('cont' if (c_ and a_) else float(v) for v, a_, c_ in zip(xi, ai, cont)), tuple(bool(v) for v in ai)
+    rows, acts = [norm(r, a)[0] for r, a in zip(rows, acts)], acts
     for r in (decode_rows if decode_rows is not None else rows):
+        r = [0. if v == 'cont' else v for v in r]
         for create in (True, False):  # materialising and non-materialising decode must agree (and both are observed)
             try:
                 _, xi, ai = gp.get_graph(list(r), create=create)
-                d = (tuple(float(v) for v in xi), tuple(bool(v) for v in ai))
+                d = norm(xi, ai)
             except Exception as e:  # noqa
                 d = f'{type(e).__name__}: {e}'
             if create:
@@ -89,7 +115,7 @@ def observe(gp, decode_rows=None):
             elif d != first:
                 first = ('create=True', first, 'create=False', d)
         dec.append(first)
-    return dict(dvs=dvs, rows=rows, acts=acts, n_valid=int(n_valid), decodes=dec)
+    return dict(dvs=dvs, rows=rows, acts=acts, n_valid=int(n_valid), decodes=dec, full=full)
 
 
 def _drop(t, k):
@@ -111,6 +137,12 @@ def check_restriction(res, name, fixed, obs_fixed, obs0, cfg, inputs):
             upper.add(red)
     got = set(obs_fixed['rows'])
     sig = dict(template=name, fixed={str(k): v for k, v in fixed.items()})
+    res['obligations'] += 1
+    if obs_fixed['full'] != obs0['full']:
+        _viol(res, 'fix', dict(kind='unrestricted_enumeration_changed', **sig), cfg, inputs,
+              dict(with_fixed_false=str(obs_fixed['full'])[:400]), 'get_all_discrete_x(with_fixed=False) is the enumeration of the free problem')
+    else:
+        res['discharged'] += 1
     res['obligations'] += 4
     if len(got) != len(obs_fixed['rows']):
         _viol(res, 'fix', dict(kind='duplicate_rows', **sig), cfg, inputs, dict(rows=obs_fixed['rows']), 'each design once')
@@ -141,7 +173,7 @@ def check_restriction(res, name, fixed, obs_fixed, obs0, cfg, inputs):
 
 def check_same(res, name, what, obs, ref, cfg, inputs):
     res['obligations'] += 1
-    diffs = [k for k in ('dvs', 'rows', 'acts', 'n_valid', 'decodes') if obs[k] != ref[k]]
+    diffs = [k for k in ('dvs', 'rows', 'acts', 'n_valid', 'decodes', 'full') if obs[k] != ref[k]]
     if diffs:
         ex = {}
         for k in diffs[:2]:
